@@ -44,6 +44,19 @@ pub fn generated_2d(max: usize) -> Vec<PartialDSym> {
     out
 }
 
+/// generator outputs up to `max` chambers plus a seeded sample (permille) of those with max+1 .. top chambers:
+/// structures that first occur one or two sizes beyond the exhaustive bound are met with high probability
+pub fn generated_2d_reach(max: usize, top: usize, permille: u32, rng: &mut StdRng) -> Vec<PartialDSym> {
+    let mut out = vec![];
+    for dset in DSets::new(2, top) {
+        let keep_all = dset.size() <= max;
+        for dsym in DSyms::new(&dset, Geometries::All) {
+            if keep_all || rng.gen_range(0..1000) < permille { out.push(as_partial_dsym(&dsym)); }
+        }
+    }
+    out
+}
+
 /// connected D-sets of the given dimension with every branching assignment from `vals`
 /// on the (i,i+1)-orbits, capped at `cap` symbols per D-set (seeded choice when more)
 pub fn sets_with_branching(dim: usize, max: usize, vals: &[usize], cap: usize, rng: &mut StdRng) -> Vec<PartialDSym> {
